@@ -6,6 +6,7 @@ import (
 	"os"
 	"path/filepath"
 	"sync/atomic"
+	"syscall"
 	"time"
 
 	"github.com/form3tech-oss/f1/v2/internal/metrics"
@@ -218,6 +219,42 @@ func c08cliDrops(ign bool) (row c08row) {
 	return row
 }
 
+// c08cliInterrupted: the user's Ctrl-C arrives while setup is still running (the driver sends itself SIGINT, which
+// the run's signal context turns into the cancellation); the setup then fails or succeeds, the teardown fails or
+// not: the verdict is still decided by what failed, not by how the run came to its end
+func c08cliInterrupted(setupMode, teardownMode string) (row c08row) {
+	row = c08row{Kind: "cli", Mode: "interrupted-during-setup:" + setupMode + "/" + teardownMode}
+	if setupMode != "" || teardownMode != "" {
+		row.Nerr = 1
+	}
+	defer func() {
+		if r := recover(); r != nil {
+			row.Panicked = true
+			row.PanicMsg = fmt.Sprint(r)
+		}
+	}()
+	var ran atomic.Int64
+	scen := func(t *f1testing.T) f1testing.RunFn {
+		if teardownMode != "" {
+			t.Cleanup(func() { failWith(t, teardownMode) })
+		}
+		go func() {
+			time.Sleep(20 * time.Millisecond)
+			_ = syscall.Kill(os.Getpid(), syscall.SIGINT)
+		}()
+		time.Sleep(70 * time.Millisecond)
+		if setupMode != "" {
+			failWith(t, setupMode)
+		}
+		return func(*f1testing.T) { ran.Add(1) }
+	}
+	err := f1.New().WithLogger(discardLogger()).Add("scn", scen).ExecuteWithArgs([]string{"run", "constant", "-r", "5/10ms",
+		"--distribution", "none", "--max-duration", "5s", "--concurrency", "2", "-v", "scn"})
+	row.S = int(ran.Load())
+	row.Failed = err != nil
+	return row
+}
+
 func init() {
 	register("c08", func(c *ctx) error {
 		w, err := newNDJSON(filepath.Join(c.out, "c08.ndjson"))
@@ -331,6 +368,10 @@ func init() {
 		// command fails exactly when dropped iterations are not ignored
 		for _, ign := range []bool{false, true} {
 			w.write(c08cliDrops(ign))
+		}
+		// interrupted while setup was still running
+		for _, m := range [][2]string{{"", ""}, {"fail", ""}, {"failnow", ""}, {"panic-runtime", ""}, {"require", ""}, {"", "fail"}, {"error", "panic-string"}} {
+			w.write(c08cliInterrupted(m[0], m[1]))
 		}
 		fmt.Println("c08 observations:", w.n)
 		return nil
